@@ -305,6 +305,29 @@ theorem exec_good : ∀ (f : Nat), IH sc f := by
         | nop =>
           simp only [leaf_andThen]
           exact hK _ none hI (NFle.refl _) hwf hg
+        | ret0 =>
+          simp only [leaf_andThen]
+          exact hK { w with ret0 := self :: w.ret0.filter (· ≠ self) } none (by exact hI) (NFle.refl _) (by exact hwf) (by exact hg)
+        | ra a verb =>
+          simp only
+          split
+          · simp only [leaf_andThen]
+            exact hK _ none hI (NFle.refl _) hwf hg
+          · rename_i a1 ha
+            obtain ⟨e1, hla, hda⟩ := readRef_some ha
+            have hgnf : NF w.c (w.cg.getD a1) := by
+              cases hcg : w.cg with
+              | none => simp only [Option.getD]; rw [e1]; exact live_nf hI hla hda
+              | some g => exact hwf g hcg
+            simp only [ite_andThen, crash_andThen, leaf_andThen]
+            refine good_ite (fun h => crash_absurd (by
+              rcases h with h | h
+              · exact h hgnf.1
+              · rw [hgnf.2] at h; exact absurd h (by decide))) (fun _ => ?_)
+            refine good_ite (fun _ => ?_) (fun _ => hK _ none hI (NFle.refl _) hwf hg)
+            have hso := eraseSent_sentOnly w.c (w.cg.getD a1) (fun t => t.2 == a1 && t.1 == verb)
+            have hle := nfle_sentOnly hso
+            exact hK _ none (sentOnly_inv hso hI) hle (fun g' hgg => hle g' (hwf g' hgg)) hg
         | obf =>
           simp only [ite_andThen, crash_andThen]
           refine good_ite (fun h => crash_absurd (by simp [anyFreed_ol hI] at h)) (fun _ => ?_)
@@ -343,32 +366,207 @@ theorem exec_good : ∀ (f : Nat), IH sc f := by
            | (simp only []; rw [hg, hadj _ rfl rfl]; rfl)
          · intro w2 v hI2 hle2 hwf2 hg2 hv
            exact good_leaf hle2 hg2 hwf2)
-    | load b =>
-      simp only [exec]
-      refine good_ite (fun h => crash_absurd (by simp [anyFreed_ot hI] at h)) (fun _ => ?_)
-      have hl := lookupC_inv { base := b, num := none } hI
-      have hle1 := nfle_lookupC w.c { base := b, num := none }
-      split
-      · rename_i i hsome
-        have := (lookupC_spec hI _ i).mp hsome
-        exact good_val hle1 hg (fun g hgg => hle1 g (hwf g hgg)) (fun x hx => by cases hx; exact hle1 _ (live_nf hI this.1 this.2.1))
-      · rename_i hnone
-        have hsame := lookupC_none_core hnone
-        have hfree := lookupC_none_free hI hnone
-        have hA := nfle_alloc (cl := false) hI hfree
-        have halloc : Inv (alloc (lookupC w.c { base := b, num := none }).1 { base := b, num := none } false).1 := by
-          rw [hsame]; exact alloc_inv hI hfree (by simp)
-        rw [← hsame] at hA
+    | load b strict =>
+      have hstrict : ∀ (c0 : Core) (w1 : World) (v : Option Nat), NFle c0 w1.c → w1.initBad = false → WorldWf w1 →
+          (∀ x, v = some x → NF w1.c x) → Good c0 (match v with
+            | none => ({ w := w1, val := none } : R)
+            | some ob => if strict = true ∧ (w1.c.objs ob).destructed = true then { w := w1, val := none }
+                         else { w := w1, val := some ob }) := by
+        intro c0 w1 v hle hg1 hwf1 hv
         split
-        · exact good_val hle1 hg (fun g hgg => hle1 g (hwf g hgg)) (by simp)
-        · exact good_raise hle1 hg (fun g hgg => hle1 g (hwf g hgg))
-        all_goals
-          refine step_good sc ih halloc ⟨hA.2, by intro y h; cases h⟩ (fun g hgg => hA.1 g (hle1 g (hwf g hgg))) hg (hle1.trans hA.1) ?_
-          intro w2 v hI2 hle2 hwf2 hg2 hv
-          have hcg : WorldWf { w2 with cg := w.cg } := fun g hgg => hle2 g (hA.1 g (hle1 g (hwf g hgg)))
+        · exact good_val hle hg1 hwf1 (by simp)
+        · rename_i ob
+          exact good_ite (fun _ => good_val hle hg1 hwf1 (by simp))
+            (fun _ => good_val hle hg1 hwf1 (fun x hx => by cases hx; exact hv ob rfl))
+      have hS : ∀ (c0 : Core) (w1 : World) (ob : Nat), NFle c0 w1.c → w1.initBad = false → WorldWf w1 → NF w1.c ob →
+          Good c0 (if strict = true ∧ (w1.c.objs ob).destructed = true then ({ w := w1, val := none } : R)
+                   else { w := w1, val := some ob }) := by
+        intro c0 w1 ob hle hg1 hwf1 hv
+        exact good_ite (fun _ => good_val hle hg1 hwf1 (by simp))
+          (fun _ => good_val hle hg1 hwf1 (fun x hx => by cases hx; exact hv))
+      cases b with
+      | nofile =>
+        simp only [exec]
+        refine good_ite (fun h => crash_absurd (by simp [anyFreed_ot hI] at h)) (fun _ => ?_)
+        have hl := lookupC_inv { base := .nofile, num := none } hI
+        have hle1 := nfle_lookupC w.c { base := .nofile, num := none }
+        have hwf1 : ∀ g, w.cg = some g → NF (lookupC w.c { base := .nofile, num := none }).1 g := fun g hgg => hle1 g (hwf g hgg)
+        split
+        · rename_i i hsome
+          have := (lookupC_spec hI _ i).mp hsome
+          exact good_val hle1 hg hwf1 (fun x hx => by cases hx; exact hle1 _ (live_nf hI this.1 this.2.1))
+        · rename_i hnone
+          have hsame := lookupC_none_core hnone
+          have hfree := lookupC_none_free hI hnone
+          have hA := nfle_alloc (cl := false) (nm := { base := .nofile, num := none }) hI hfree
+          have halloc : Inv (alloc (lookupC w.c { base := .nofile, num := none }).1 { base := .nofile, num := none } false).1 := by
+            rw [hsame]; exact alloc_inv hI hfree (by simp)
+          rw [← hsame] at hA
+          refine good_ite (fun _ => good_raise hle1 hg hwf1) (fun _ => ?_)
+          simp only [leaf_andThen]
+          exact good_val hle1 hg hwf1 (by simp)
+      | badfile =>
+        simp only [exec]
+        refine good_ite (fun h => crash_absurd (by simp [anyFreed_ot hI] at h)) (fun _ => ?_)
+        have hl := lookupC_inv { base := .badfile, num := none } hI
+        have hle1 := nfle_lookupC w.c { base := .badfile, num := none }
+        have hwf1 : ∀ g, w.cg = some g → NF (lookupC w.c { base := .badfile, num := none }).1 g := fun g hgg => hle1 g (hwf g hgg)
+        split
+        · rename_i i hsome
+          have := (lookupC_spec hI _ i).mp hsome
+          exact good_val hle1 hg hwf1 (fun x hx => by cases hx; exact hle1 _ (live_nf hI this.1 this.2.1))
+        · rename_i hnone
+          have hsame := lookupC_none_core hnone
+          have hfree := lookupC_none_free hI hnone
+          have hA := nfle_alloc (cl := false) (nm := { base := .badfile, num := none }) hI hfree
+          have halloc : Inv (alloc (lookupC w.c { base := .badfile, num := none }).1 { base := .badfile, num := none } false).1 := by
+            rw [hsame]; exact alloc_inv hI hfree (by simp)
+          rw [← hsame] at hA
+          refine good_ite (fun _ => good_raise hle1 hg hwf1) (fun _ => ?_)
+          simp only [raise_andThen]
+          exact good_raise hle1 hg hwf1
+      | ih k =>
+        simp only [exec]
+        refine good_ite (fun h => crash_absurd (by simp [anyFreed_ot hI] at h)) (fun _ => ?_)
+        have hl := lookupC_inv { base := .ih k, num := none } hI
+        have hle1 := nfle_lookupC w.c { base := .ih k, num := none }
+        have hwf1 : ∀ g, w.cg = some g → NF (lookupC w.c { base := .ih k, num := none }).1 g := fun g hgg => hle1 g (hwf g hgg)
+        split
+        · rename_i i hsome
+          have := (lookupC_spec hI _ i).mp hsome
+          exact good_val hle1 hg hwf1 (fun x hx => by cases hx; exact hle1 _ (live_nf hI this.1 this.2.1))
+        · rename_i hnone
+          have hsame := lookupC_none_core hnone
+          have hfree := lookupC_none_free hI hnone
+          have hA := nfle_alloc (cl := false) (nm := { base := .ih k, num := none }) hI hfree
+          have halloc : Inv (alloc (lookupC w.c { base := .ih k, num := none }).1 { base := .ih k, num := none } false).1 := by
+            rw [hsame]; exact alloc_inv hI hfree (by simp)
+          rw [← hsame] at hA
+          refine good_ite (fun _ => good_raise hle1 hg hwf1) (fun _ => ?_)
+          have hlB := lookupC_inv { base := .bp k, num := none } hl
+          have hleB := nfle_lookupC (lookupC w.c { base := .ih k, num := none }).1 { base := .bp k, num := none }
+          have hnB := lookupC_n (lookupC w.c { base := .ih k, num := none }).1 { base := .bp k, num := none }
+          have hn0 := lookupC_n w.c { base := .ih k, num := none }
+          have hle2 := hle1.trans hleB
+          have hwf2 : ∀ g, w.cg = some g → NF (lookupC (lookupC w.c { base := .ih k, num := none }).1 { base := .bp k, num := none }).1 g :=
+            fun g hgg => hleB g (hwf1 g hgg)
           split
-          · exact good_val ((hle1.trans hA.1).trans hle2) hg2 hcg (by simp)
-          · exact good_val ((hle1.trans hA.1).trans hle2) hg2 hcg (fun x hx => by cases hx; exact hle2 _ hA.2)
+          · rename_i r hr
+            split at hr
+            · exfalso
+              rename_i hfr
+              simp [anyFreed_ot hl] at hfr
+            · split at hr
+              · cases hr
+              · cases hr
+                simp only [andThen_assoc]
+                refine step_good sc ih (by exact hlB) trivial (by exact hwf2) (by exact hg) hle2 ?_
+                intro w3 v3 hI3 hle3 hwf3 hg3 hv3
+                split
+                · simp only [raise_andThen]
+                  exact good_raise (hle2.trans hle3) hg3 hwf3
+                · simp only [andThen_assoc]
+                  refine step_good sc ih hI3 trivial hwf3 hg3 (hle2.trans hle3) ?_
+                  intro w4 v4 hI4 hle4 hwf4 hg4 hv4
+                  simp only [leaf_andThen]
+                  refine hstrict _ _ _ ?_ ?_ ?_ ?_
+                  · exact (hle2.trans hle3).trans hle4
+                  · exact hg4
+                  · exact hwf4
+                  · exact hv4
+          · rename_i w' hr
+            split at hr
+            · cases hr
+            · split at hr
+              · cases hr
+                have hfree' : ∀ i, i < (lookupC (lookupC w.c { base := .ih k, num := none }).1 { base := .bp k, num := none }).1.n →
+                    ((lookupC (lookupC w.c { base := .ih k, num := none }).1 { base := .bp k, num := none }).1.objs i).destructed = false →
+                    ((lookupC (lookupC w.c { base := .ih k, num := none }).1 { base := .bp k, num := none }).1.objs i).name ≠ { base := .ih k, num := none } := by
+                  intro i hi hd
+                  rw [hnB.1, hn0.1] at hi
+                  rw [hnB.2, hn0.2] at hd ⊢
+                  exact hfree i hi hd
+                have hA2 := nfle_alloc (cl := false) (nm := { base := .ih k, num := none }) hlB hfree'
+                have halloc2 := alloc_inv (cl := false) hlB hfree' (by simp)
+                simp only [andThen_assoc]
+                refine step_good sc ih (by exact halloc2) ⟨hA2.2, by intro y h; cases h⟩ (fun g hgg => hA2.1 g (hwf2 g hgg)) (by exact hg) (hle2.trans hA2.1) ?_
+                intro w3 v3 hI3 hle3 hwf3 hg3 hv3
+                simp only [leaf_andThen]
+                refine good_ite (fun _ => good_val ((hle2.trans hA2.1).trans hle3) (by exact hg3) (fun g hgg => hle3 g (hA2.1 g (hwf2 g hgg))) (by simp))
+                  (fun _ => good_val ((hle2.trans hA2.1).trans hle3) (by exact hg3) (fun g hgg => hle3 g (hA2.1 g (hwf2 g hgg))) (fun x hx => by cases hx; exact hle3 _ hA2.2))
+              · cases hr
+      | bp k =>
+        simp only [exec]
+        refine good_ite (fun h => crash_absurd (by simp [anyFreed_ot hI] at h)) (fun _ => ?_)
+        have hl := lookupC_inv { base := .bp k, num := none } hI
+        have hle1 := nfle_lookupC w.c { base := .bp k, num := none }
+        have hwf1 : ∀ g, w.cg = some g → NF (lookupC w.c { base := .bp k, num := none }).1 g := fun g hgg => hle1 g (hwf g hgg)
+        split
+        · rename_i i hsome
+          have := (lookupC_spec hI _ i).mp hsome
+          exact good_val hle1 hg hwf1 (fun x hx => by cases hx; exact hle1 _ (live_nf hI this.1 this.2.1))
+        · rename_i hnone
+          have hsame := lookupC_none_core hnone
+          have hfree := lookupC_none_free hI hnone
+          have hA := nfle_alloc (cl := false) (nm := { base := .bp k, num := none }) hI hfree
+          have halloc : Inv (alloc (lookupC w.c { base := .bp k, num := none }).1 { base := .bp k, num := none } false).1 := by
+            rw [hsame]; exact alloc_inv hI hfree (by simp)
+          rw [← hsame] at hA
+          refine good_ite (fun _ => good_raise hle1 hg hwf1) (fun _ => ?_)
+          simp only [andThen_assoc]
+          refine step_good sc ih (by exact halloc) ⟨hA.2, by intro y h; cases h⟩ (fun g hgg => hA.1 g (hwf1 g hgg)) (by exact hg) (hle1.trans hA.1) ?_
+          intro w2 v hI2 hle2 hwf2 hg2 hv
+          simp only [leaf_andThen]
+          refine good_ite (fun _ => good_val ((hle1.trans hA.1).trans hle2) (by exact hg2) (fun g hgg => hle2 g (hA.1 g (hwf1 g hgg))) (by simp))
+            (fun _ => good_val ((hle1.trans hA.1).trans hle2) (by exact hg2) (fun g hgg => hle2 g (hA.1 g (hwf1 g hgg))) (fun x hx => by cases hx; exact hle2 _ hA.2))
+      | master =>
+        simp only [exec]
+        refine good_ite (fun h => crash_absurd (by simp [anyFreed_ot hI] at h)) (fun _ => ?_)
+        have hl := lookupC_inv { base := .master, num := none } hI
+        have hle1 := nfle_lookupC w.c { base := .master, num := none }
+        have hwf1 : ∀ g, w.cg = some g → NF (lookupC w.c { base := .master, num := none }).1 g := fun g hgg => hle1 g (hwf g hgg)
+        split
+        · rename_i i hsome
+          have := (lookupC_spec hI _ i).mp hsome
+          exact good_val hle1 hg hwf1 (fun x hx => by cases hx; exact hle1 _ (live_nf hI this.1 this.2.1))
+        · rename_i hnone
+          have hsame := lookupC_none_core hnone
+          have hfree := lookupC_none_free hI hnone
+          have hA := nfle_alloc (cl := false) (nm := { base := .master, num := none }) hI hfree
+          have halloc : Inv (alloc (lookupC w.c { base := .master, num := none }).1 { base := .master, num := none } false).1 := by
+            rw [hsame]; exact alloc_inv hI hfree (by simp)
+          rw [← hsame] at hA
+          refine good_ite (fun _ => good_raise hle1 hg hwf1) (fun _ => ?_)
+          simp only [andThen_assoc]
+          refine step_good sc ih (by exact halloc) ⟨hA.2, by intro y h; cases h⟩ (fun g hgg => hA.1 g (hwf1 g hgg)) (by exact hg) (hle1.trans hA.1) ?_
+          intro w2 v hI2 hle2 hwf2 hg2 hv
+          simp only [leaf_andThen]
+          refine good_ite (fun _ => good_val ((hle1.trans hA.1).trans hle2) (by exact hg2) (fun g hgg => hle2 g (hA.1 g (hwf1 g hgg))) (by simp))
+            (fun _ => good_val ((hle1.trans hA.1).trans hle2) (by exact hg2) (fun g hgg => hle2 g (hA.1 g (hwf1 g hgg))) (fun x hx => by cases hx; exact hle2 _ hA.2))
+      | simul =>
+        simp only [exec]
+        refine good_ite (fun h => crash_absurd (by simp [anyFreed_ot hI] at h)) (fun _ => ?_)
+        have hl := lookupC_inv { base := .simul, num := none } hI
+        have hle1 := nfle_lookupC w.c { base := .simul, num := none }
+        have hwf1 : ∀ g, w.cg = some g → NF (lookupC w.c { base := .simul, num := none }).1 g := fun g hgg => hle1 g (hwf g hgg)
+        split
+        · rename_i i hsome
+          have := (lookupC_spec hI _ i).mp hsome
+          exact good_val hle1 hg hwf1 (fun x hx => by cases hx; exact hle1 _ (live_nf hI this.1 this.2.1))
+        · rename_i hnone
+          have hsame := lookupC_none_core hnone
+          have hfree := lookupC_none_free hI hnone
+          have hA := nfle_alloc (cl := false) (nm := { base := .simul, num := none }) hI hfree
+          have halloc : Inv (alloc (lookupC w.c { base := .simul, num := none }).1 { base := .simul, num := none } false).1 := by
+            rw [hsame]; exact alloc_inv hI hfree (by simp)
+          rw [← hsame] at hA
+          refine good_ite (fun _ => good_raise hle1 hg hwf1) (fun _ => ?_)
+          simp only [andThen_assoc]
+          refine step_good sc ih (by exact halloc) ⟨hA.2, by intro y h; cases h⟩ (fun g hgg => hA.1 g (hwf1 g hgg)) (by exact hg) (hle1.trans hA.1) ?_
+          intro w2 v hI2 hle2 hwf2 hg2 hv
+          simp only [leaf_andThen]
+          refine good_ite (fun _ => good_val ((hle1.trans hA.1).trans hle2) (by exact hg2) (fun g hgg => hle2 g (hA.1 g (hwf1 g hgg))) (by simp))
+            (fun _ => good_val ((hle1.trans hA.1).trans hle2) (by exact hg2) (fun g hgg => hle2 g (hA.1 g (hwf1 g hgg))) (fun x hx => by cases hx; exact hle2 _ hA.2))
     | clone b =>
       simp only [exec, hbRemove_c, hbRemove_cg, hbRemove_initBad]
       refine step_good sc ih hI trivial hwf hg (NFle.refl _) ?_
@@ -551,16 +749,33 @@ theorem exec_good : ∀ (f : Nat), IH sc f := by
       refine good_ite (fun h => crash_absurd (by rcases h with h | h; exact h ha.1; simp [ha.2] at h)) (fun _ => ?_)
       refine good_ite (fun _ => good_val (NFle.refl _) hg hwf (by simp)) (fun hd => ?_)
       refine good_ite (fun _ => good_val (NFle.refl _) hg hwf (by simp)) (fun _ => ?_)
+      refine step_good sc ih (by exact hI) (by exact ha) ?_ (by exact hg) (NFle.refl _) ?_
+      · intro g hgg; cases hgg; exact ha
+      · intro w2 v hI2 hle2 hwf2 hg2 hv
+        exact good_val hle2 hg2 (fun g hgg => hle2 g (hwf g hgg)) hv
+    | cmdloop a verb rest saveIsa =>
+      simp only [exec]
+      have ha : NF w.c a := ht
       split
       · exact good_val (NFle.refl _) hg hwf (by simp)
-      · rename_i t hfind
-        have hp := List.find?_some hfind
-        simp at hp
-        have hnf : NF w.c t.2 := live_nf hI hp.1.1 hp.1.2
-        refine step_good sc ih (by exact hI) ⟨hnf, by intro y h; cases h⟩ ?_ (by exact hg) (NFle.refl _) ?_
-        · intro g hgg; cases hgg; exact ha
-        · intro w2 v hI2 hle2 hwf2 hg2 hv
-          exact good_val hle2 hg2 (fun g hgg => hle2 g (hwf g hgg)) (fun x hx => by cases hx; exact hle2 _ ha)
+      · rename_i t rest'
+        refine good_ite (fun _ => ih (.cmdloop a verb rest' saveIsa) w hI ha hwf hg) (fun hc => ?_)
+        have hp : t.2 < w.c.n ∧ (w.c.objs t.2).destructed = false := by
+          have h3 : (decide (t.2 < w.c.n) && !(w.c.objs t.2).destructed && t.1 == verb) = true := by
+            apply Classical.byContradiction; intro h; exact hc h
+          simp at h3; exact ⟨h3.1.1, h3.1.2⟩
+        refine step_good sc ih hI ⟨live_nf hI hp.1 hp.2, by intro y h; cases h⟩ hwf hg (NFle.refl _) ?_
+        intro w1 v hI1 hle1 hwf1 hg1 hv
+        have hwfa : ∀ g, some a = some g → NF w1.c g := fun g hgg => by cases hgg; exact hle1 _ ha
+        refine good_ite (fun _ => good_val hle1 hg1 hwfa ?_) (fun _ => ?_)
+        · intro x hx
+          split at hx
+          · cases hx; exact hle1 _ ha
+          · cases hx
+        refine good_ite (fun _ => good_val hle1 hg1 hwfa (fun x hx => by cases hx; exact hle1 _ ha)) (fun _ => ?_)
+        refine good_ite (fun _ => good_raise hle1 hg1 hwfa) (fun _ => ?_)
+        refine good_ite (fun _ => good_raise hle1 hg1 hwfa) (fun _ => ?_)
+        exact (ih (.cmdloop a verb rest' saveIsa) { w1 with cg := some a } (by exact hI1) (by exact hle1 _ ha) hwfa (by exact hg1)).mono hle1
     | destruct ob =>
       simp only [exec]
       have hob : NF w.c ob := ht
